@@ -1,11 +1,13 @@
 (* Props/C13.v -- Programs assemble exactly when well formed; faults yield the matching error.
-   PARTIAL: the "only if" direction (success implies well-formedness) and the exact error for
-   each kind of fault are proved; the "if" direction (every well-formed program assembles) is
-   validated by the differential check but not proved (it needs the converse of the layout
-   and emission lemmas: see C13_partial_missing below). *)
+   PARTIAL: proved are (a) success implies well-formedness, (b) for the layout/emission phase
+   the exact equivalence "succeeds iff no undeclared label and every operand in range"
+   (C13_finish_ok_iff), (c) the exact error for each kind of fault.  What is NOT proved is a
+   declarative characterisation of when the READING phase (labels, macro expansion, early
+   operand checks) succeeds: its success is taken as `push_op ... = Ok` rather than derived
+   from a syntactic well-formedness predicate; that part is validated by the differential check. *)
 From Coq Require Import Lia.
 From Verif Require Import Model.Base Model.Ops Model.Expr Model.Asm
-  Proofs.ExprEvalProofs Proofs.AsmLayoutProofs Proofs.AsmRangeProofs.
+  Proofs.ExprEvalProofs Proofs.AsmLayoutProofs Proofs.AsmRangeProofs Proofs.AsmTotalProofs.
 Open Scope Z_scope.
 
 (* success => well formed: labels defined at most once, every label an operand mentions is
@@ -29,6 +31,18 @@ Proof.
   eapply Forall_impl; [|exact Hall]. intros p [b Hb]. eapply emitted_in_range; exact Hb.
 Qed.
 Print Assumptions C13_success_implies_well_formed_partial.
+
+(* EXACTLY WHEN, for the final phase: once the ops have been read (labels, macro expansion,
+   early checks), assembly succeeds if and only if no used label is left undeclared and every
+   operand evaluates to a value that fits its push under the labels the layout decides (the
+   layout itself always exists: C14_layout_terminates). *)
+Theorem C13_finish_ok_iff : forall macros st,
+  (exists bytes, finish_scope macros st = Ok bytes) <->
+  (a_undeclared st = [] /\
+   exists w pos, layout macros (a_ready st) = Ok (w, pos) /\
+     Forall (operand_in_range macros (lenv pos)) (with_widths (a_ready st) w)).
+Proof. exact finish_scope_ok_iff. Qed.
+Print Assumptions C13_finish_ok_iff.
 
 (* each fault yields the matching error, naming the offender *)
 Theorem C13_duplicate_label : forall macros fuel st l,
@@ -116,3 +130,8 @@ Check C13_unknown_expression_macro : forall labels macros f vs n args,
   eval labels macros f vs (EMacro n args) = err1 "UnknownMacro" n.
 Check C13_missing_argument : forall labels macros f x,
   eval labels macros f (Some []) (EVar x) = err1 "UndefinedVariable" x.
+Check C13_finish_ok_iff : forall macros st,
+  (exists bytes, finish_scope macros st = Ok bytes) <->
+  (a_undeclared st = [] /\
+   exists w pos, layout macros (a_ready st) = Ok (w, pos) /\
+     Forall (operand_in_range macros (lenv pos)) (with_widths (a_ready st) w)).
